@@ -311,3 +311,35 @@ Theorem x_next_segment_ok : forall sd sh len pos, x_next_segment sd sh len pos =
 Proof.
   intros. unfold x_next_segment, next_segment. destruct (sd pos) as [o| |e]; reflexivity.
 Qed.
+
+(* libfs::map_extents: the translated paging loop is the model's *)
+Lemma fold_push_ext (pg : list fext) : forall acc,
+  fold_left (fun extents e => extents ++ [mkExt (fe_logical e) (fe_logical e + fe_length e) (fe_shared e)]) pg acc =
+  acc ++ map to_ext pg.
+Proof.
+  induction pg as [|x pg IH]; intros acc; cbn [fold_left map]; [now rewrite app_nil_r|].
+  rewrite IH. rewrite <- app_assoc. reflexivity.
+Qed.
+
+Lemma nth_error_last {A} (l : list A) (d : A) : l <> [] -> nth_error l (List.length l - 1) = Some (last l d).
+Proof.
+  induction l as [|x l IH]; intros H; [contradiction|]. destruct l as [|y l]; [reflexivity|].
+  cbn [List.length]. replace (S (S (List.length l)) - 1)%nat with (S (List.length (y :: l) - 1)) by (cbn [List.length]; lia).
+  cbn [nth_error]. rewrite IH by discriminate. reflexivity.
+Qed.
+
+Theorem x_map_extents_go_ok : forall fuel fiemap start acc,
+  x_map_extents_go fuel fiemap start acc = map_extents_go fuel fiemap start acc.
+Proof.
+  induction fuel as [|f IH]; intros fiemap start acc; [reflexivity|].
+  cbn [x_map_extents_go map_extents_go]. destruct (fiemap start) as [|e|pg]; try reflexivity.
+  destruct pg as [|x pg]; [reflexivity|].
+  replace (N.of_nat (List.length (x :: pg)) =? 0) with false by (symmetry; apply N.eqb_neq; cbn [List.length]; lia).
+  rewrite (nth_error_last (x :: pg) x) by discriminate.
+  change (fun extents e => let ext := mkExt (fe_logical e) (fe_logical e + fe_length e) (fe_shared e) in extents ++ [ext])
+    with (fun extents e => extents ++ [mkExt (fe_logical e) (fe_logical e + fe_length e) (fe_shared e)]).
+  rewrite fold_push_ext. destruct (fe_last (last (x :: pg) x)); [reflexivity|]. apply IH.
+Qed.
+
+Theorem x_map_extents_ok : forall fuel fiemap, x_map_extents fuel fiemap = map_extents fuel fiemap.
+Proof. intros. apply x_map_extents_go_ok. Qed.
